@@ -555,6 +555,17 @@ def _agg(g, scale):
             g.emit("%s fv_%s%d %d fe fa fe" % (fn, fn, w, w))
             g.emit("%s fu_%s%d %d fa fb fa fb" % (fn, fn, w, w))
             g.emit("wf fu_%s%d" % (fn, w))
+    # many workers and a key span from 0 to 65535: the chunking arithmetic (chunk size rounded up, chunk starts in uint16)
+    g.emit("# group agg fixed-wide-manyworkers")
+    g.emit("of wa 5 %d %d %d %d" % (1 << 16, 30000 << 16, (65534 << 16) + 7, (65535 << 16) + 65535))
+    g.emit("of wb 6 %d %d %d" % ((1 << 16) + 1, (40000 << 16) + 3, (65535 << 16) + 1))
+    g.emit("of wc %d %d" % ((20000 << 16) + 9, (65533 << 16) + 2))
+    for w in [70, 96, 128, 192, 255, 256, 257, 1000, 4096, 65535] if g.r.random() < 2 else []:
+        for fn in PAR:
+            y = g.fresh("wy")
+            g.emit("%s %s %d wa wb wc" % (fn, y, w))
+            g.emit("wf %s" % y)
+        g.count("agg:wide-manyworkers")
     g.emit("clone fx fa")
     g.emit("andany fx fb")
     g.emit("andany fx fx")
